@@ -339,7 +339,7 @@ def run_impl(crystals, direct="auto"):
         if chunk:
             payloads.append({"cases": [{"id": c["id"], "crystal": c["crystal"], "tol": c.get("tol", TOL), "direct": direct,
                                         "target": (c["crystal"].get("target") or [None, None])[1], "doctor": c.get("doctor"),
-                                        "history": c.get("history")} for c in chunk]})
+                                        "history": c.get("history"), "prior": c.get("prior")} for c in chunk]})
     outs = C.impl_run_parallel("c08_impl", payloads, jobs=JOBS)
     rows = {}
     for o in outs:
@@ -372,8 +372,8 @@ def shrink(crystal, wyck, still_fails):
     return cur
 
 
-def evaluate_on_impl(crystal, wyck, tol=TOL, history=None):
-    rows = run_impl([{"id": 0, "crystal": crystal, "tol": tol, "history": history}], direct="always")
+def evaluate_on_impl(crystal, wyck, tol=TOL, history=None, prior=None):
+    rows = run_impl([{"id": 0, "crystal": crystal, "tol": tol, "history": history, "prior": prior}], direct="always")
     return rows[0], row_failures(rows[0], wyck)
 
 
@@ -406,15 +406,26 @@ def failure_key(f, row, crystal=None):
         return "wyckoff-parameters:2d:%s" % f["clause"]
     if f["clause"] == "has-free-parameters-flag":
         return "wyckoff-parameters:has-free-parameters-flag"
+    if f["clause"] == "analyzer-reuse":
+        return "wyckoff-parameters:analyzer-reuse"
     if f.get("letter"):
         return "wyckoff-parameters:%s:%s" % (sg, f["letter"])
     return "wyckoff-parameters:%s:%s" % (sg, f["clause"])
 
 
+def reuse_failures(row):
+    """history stream: the analyzer that was handed other crystals before (set_system) must answer like a fresh one"""
+    ru = row.get("reuse")
+    if ru and not ru.get("same"):
+        return [{"clause": "analyzer-reuse", "differs_in": ru.get("differs_in"), "reused": ru.get("reused"), "fresh": ru.get("fresh"),
+                 "previous_crystal": ru.get("previous_crystal"), "sg": row.get("number")}]
+    return []
+
+
 def row_failures(row, wyck):
     if "number" not in row or str(row.get("status", "")).startswith("error"):
         return [{"clause": "call-raised", "status": row.get("status"), "message": row.get("message", "")}]
-    return py_property(row, wyck, "api") + [dict(f, through="_get_wyckoff_sets on spglib's conventional system")
+    return py_property(row, wyck, "api") + reuse_failures(row) + [dict(f, through="_get_wyckoff_sets on spglib's conventional system")
                                             for f in py_property(row, wyck, "direct")]
 
 
@@ -423,7 +434,7 @@ def report_crystal(ctx, crystal, wyck, known, reported, why, tol=TOL, extra=None
     known finding print KNOWN-FINDING (once per key); the first other failure is shrunk and reported.
     Returns 'violation' | 'known' | None (the predicate holds)."""
     if row is None:
-        row, fails = evaluate_on_impl(crystal, wyck, tol, (extra or {}).get("analyzer_history"))
+        row, fails = evaluate_on_impl(crystal, wyck, tol, (extra or {}).get("analyzer_history"), (extra or {}).get("previous_crystal"))
     else:
         fails = row_failures(row, wyck)
     if not fails:
@@ -455,8 +466,12 @@ def report_crystal(ctx, crystal, wyck, known, reported, why, tol=TOL, extra=None
         rep = {"kind": "property-fails-on-implementation", "key": key, "why": why, "crystal": small, "tol": tol,
                "call": "SymmetryAnalyzer(Atoms(numbers, cell, scaled_positions, pbc), symmetry_tol=tol).get_wyckoff_sets_conventional(return_parameters=True)",
                "analyzer_history": hist,
+               "previous_crystal": f.get("previous_crystal"),
+               "previous_crystal_meaning": "when set: one SymmetryAnalyzer first analysed previous_crystal (parameters and flag asked), then set_system(crystal); "
+                                           "its answers differ from those of a fresh analyzer on crystal",
                "history_meaning": "calls made on the analyzer before the examined ones: 0 none; 1 get_material_id() and get_wyckoff_sets_conventional(False); "
-                                  "2 get_has_free_wyckoff_parameters(), get_wyckoff_sets_conventional(True), get_wyckoff_sets_conventional(False)",
+                                  "2 get_has_free_wyckoff_parameters(), get_wyckoff_sets_conventional(True), get_wyckoff_sets_conventional(False); "
+                                  "a list: these public getters of the analyzer, in this order",
                "failures": fails2[:6], "implementation": {k2: row2.get(k2) for k2 in ("number", "status", "message", "flag", "flag_unstable", "letters_original")}}
         if extra:
             rep.update(extra)
@@ -724,7 +739,9 @@ def run(ctx):
         "pairs_without_crystal": ungenerated[:40], "n_pairs_without_crystal": len(ungenerated), "corpus": [c["file"] for c in corpus],
         "crystals": len(crystals), "by_origin": {o: sum(1 for c in crystals if c["origin"].startswith(o)) for o in ("corpus", "pair", "flag", "family", "2d")},
         "flag_stream(free position + later parameter-free position occupied)": {"groups_with_such_a_pair": len(flag_groups), "crystals": n_flag_made},
-        "analyzer_call_history": "crystal id % 3: 0 = parameters asked first; 1 = get_material_id() and get_wyckoff_sets_conventional(False) before; 2 = flag, parameters, no parameters, parameters again (last answer used)",
+        "analyzer_call_history": "crystal id % 4: 3 = a pseudo-random selection of the analyzer's other public getters, shuffled, first; 0 = parameters asked first; 1 = get_material_id() and get_wyckoff_sets_conventional(False) before; 2 = flag, parameters, no parameters, parameters again (last answer used)",
+        "analyzer_reuse": "every crystal is also handed through set_system() to ONE analyzer per runner process and tolerance that answered flag/sets/parameters "
+                          "for the previous crystals; its status, sets, parameters and flag must equal the fresh analyzer's (replay records the previous crystal)",
         "malformed(one class split in two, anchored call)": sum(1 for c in crystals if c.get("doctor")),
         "atoms_min_median_max": [min(sizes), sorted(sizes)[len(sizes) // 2], max(sizes)], "discarded_unstable_or_higher_symmetry": disc,
         "implementation_status": stat, "distinct_pairs_observed": len(observed), "distinct_pairs_with_variables_observed": len(with_vars),
@@ -788,7 +805,7 @@ def replay(ctx, rep):
     if "crystal" not in rep:
         print("replay: no crystal in this replay file (broken obligation: %s)" % (rep.get("broken"),))
         return
-    row, fails = evaluate_on_impl(rep["crystal"], wyck, rep.get("tol", TOL), rep.get("analyzer_history"))
+    row, fails = evaluate_on_impl(rep["crystal"], wyck, rep.get("tol", TOL), rep.get("analyzer_history"), rep.get("previous_crystal"))
     if fails:
         rep = dict(rep)
         rep["failures_now"] = fails[:6]
